@@ -4,7 +4,7 @@ import ast
 from fractions import Fraction
 
 from ..absint import Interp, Domain, OPAQUE, Nondet, PathLimit
-from ..front import AnalysisError, dotted, fname, is_self_attr, src, walk_no_nested
+from ..front import const_value, AnalysisError, dotted, fname, is_self_attr, src, walk_no_nested
 from ..sym import Canon, Poly, inline_locals
 
 LEVEL = "proof"
@@ -23,6 +23,7 @@ def run(repo, run, tier):
                     "python ast, fractions; the analyser in /verif/sa"]
     run.assumptions += ["real arithmetic: rounding of the evaluated polynomial is not modelled ('to rounding' is not decided)"]
     hermite(repo, run)
+    scale_discipline(repo, run)
     bisection(repo, run, tier)
     bisection_vec(repo, run, tier)
 
@@ -460,3 +461,79 @@ def bisection_vec(repo, run, tier, rule_id="C17.5"):
         run.report(rule_id, UTIL, fn, "for a strictly increasing array of length %d and query classes %s the vectorised search %s (%d of %d cases fail): it disagrees "
                                       "with the specification / the scalar search" % (n, qs, why, len(bad), total),
                    text="search_bisection_vec over order types: first failure n=%d: %s" % (n, why))
+
+
+# ------------------------------------------------------------------------------------------------
+def scale_discipline(repo, run):
+    """'for intervals of either orientation', of any length the dtype can represent: the Hermite value and gradient are homogeneous of degree 0 and -1 in the unit of
+    time, and the shipped code forms them from the normalised coordinate (degree 0) times at most ONE factor of the interval length.  A rewriting that is the same
+    polynomial but forms a power of a time difference on its own (`trange**3`, `(t - t0)**2`) leaves the floating range long before the result does: in float16
+    `trange**3` overflows for steps above 40 and underflows below 4e-3, in float32 below 1e-15 -- the gradient silently stops being the derivative of the value."""
+    rid = run.rule("C17.8", "scale discipline of CubicHermiteInterp.__call__ / grad: every intermediate value has a degree in the unit of time between -1 and +1 (degrees by "
+                            "dimensional analysis: times and the interval length +1, slopes -1, the normalised coordinate 0)", floor=10)
+    DEG = {"self.trange": 1, "self.tshift": 1, "self.t0": 1, "self.t1": 1, "self.p0": 0, "self.p1": 0, "self.m0": -1, "self.m1": -1}
+    for meth in ("__call__", "grad"):
+        fn = repo.get(INTERP, CLS + "." + meth)
+        tp = [a.arg for a in fn.args.args][1]
+        env = inline_locals(fn)
+        memo = {}
+
+        def deg(e, depth=0):
+            """degree in the unit of time, or None when not definite"""
+            if depth > 14:
+                return None
+            if isinstance(e, ast.Constant):
+                return 0 if isinstance(e.value, (int, float)) else None
+            if isinstance(e, ast.Name):
+                if e.id == tp:
+                    return 1
+                if e.id in env:
+                    return deg(env[e.id], depth + 1)
+                return None
+            if isinstance(e, ast.Attribute):
+                return DEG.get(src(e))
+            if isinstance(e, ast.UnaryOp):
+                return deg(e.operand, depth + 1)
+            if isinstance(e, ast.Call):
+                if dotted(e.func) == "self.__affine_transform":
+                    return 0
+                if (fname(e) or "").split(".")[-1] in ("abs", "absolute", "asarray", "copy") and e.args:
+                    return deg(e.args[0], depth + 1)
+                return None
+            if isinstance(e, ast.BinOp):
+                l, r = deg(e.left, depth + 1), deg(e.right, depth + 1)
+                if isinstance(e.op, (ast.Add, ast.Sub)):
+                    return l if l == r else (l if r is None else (r if l is None else None))
+                if l is None or r is None:
+                    if isinstance(e.op, ast.Pow) and l is not None:
+                        try:
+                            return l * const_value(e.right)
+                        except ValueError:
+                            return None
+                    return None
+                if isinstance(e.op, ast.Mult):
+                    return l + r
+                if isinstance(e.op, ast.Div):
+                    return l - r
+                if isinstance(e.op, ast.Pow):
+                    try:
+                        return l * const_value(e.right)
+                    except ValueError:
+                        return None
+            return None
+        run.analysed_fn(INTERP, fn)
+        seen = set()
+        for node in walk_no_nested(fn):
+            if isinstance(node, (ast.BinOp,)) and id(node) not in seen:
+                d = deg(node)
+                if d is None:
+                    continue
+                ok = -1 <= d <= 1
+                run.judged(rid, "%s: `%s` has degree %s" % (meth, src(node)[:70], d), ok=ok, nontrivial=d != 0)
+                if not ok:
+                    for x in ast.walk(node):
+                        seen.add(id(x))
+                    run.report("C17.8", INTERP, node, "`%s` is an intermediate of degree %s in the unit of time (a power of a time difference formed on its own): it overflows / "
+                               "underflows for long / short intervals although the %s it is part of is of degree %s -- in float16 a cube of the interval length overflows for "
+                               "steps above 40 and underflows below 4e-3; the result is then inf, nan or silently 0, and the gradient is no longer the derivative of the value"
+                               % (src(node)[:60], d, "value" if meth == "__call__" else "gradient", 0 if meth == "__call__" else -1))
